@@ -9,7 +9,7 @@ Init == \E i \in Instances : QInit(i)
 LastNode == IF hist = <<>> THEN 0 ELSE hist[Len(hist)].n
 Grow == /\ Len(hist) < MaxLen
         /\ \E node \in {LastNode, LastNode + 1} \ {0} : \E kind \in KindsOf(inst) : Record(node, kind)
-Finish == TakePending
+Finish == qphase = "run" /\ TakePending
 Next == Grow \/ Finish
 Spec == Init /\ [][Next]_qvars
 
